@@ -56,3 +56,51 @@ Definition sdk_all_known (chain : list chain_entry) : bool :=
 Definition is_nil_str (l : list string) : bool := match l with [] => true | _ => false end.
 Definition chain_ok (chain : list chain_entry) (tbl : list (string * list ret_shape)) (errors : list string) : bool :=
   is_nil_str errors && chain_continues chain tbl && sdk_all_known chain && subseq auth_steps (map entry_tag chain).
+
+(* ---- the code the model Auth.v was written from, pinned by fingerprint (sha256 prefix of each function
+   printed from its AST, comments excluded).  An edit to any of them asks for the model, the harness
+   oracles and these values to be looked at again. *)
+Definition c02_pinned_fingerprints : list (string * string) := [
+  ("app/ante/sigverify.go:GenEIP712SignBytesFromMsg", "948d90ce29ff45ef");
+  ("app/ante/sigverify.go:GetSignerAcc", "31f84b5321933232");
+  ("app/ante/sigverify.go:NewSetPubKeyDecorator", "99060ebf93e49b7e");
+  ("app/ante/sigverify.go:NewSigVerificationDecorator", "6483f9fd98ebebf7");
+  ("app/ante/sigverify.go:OnlyLegacyAminoSigners", "7befbcc9e3c0bb56");
+  ("app/ante/sigverify.go:SetPubKeyDecorator.AnteHandle", "523b184d68d64640");
+  ("app/ante/sigverify.go:SigVerificationDecorator.AnteHandle", "e9fbe607b4f3b1e2");
+  ("app/ante/sigverify.go:VerifyEthereumSignature", "bc6053c1ec9dcd4b");
+  ("app/ante/sigverify.go:init", "ae435a7bfa89e27d");
+  ("app/ante/sigverify.go:signatureDataToBz", "4f18324fec4f4c84");
+  ("app/ante/ante.go:NewAnteHandler", "9fd0d52c5534ce92");
+  ("x/tokens/types/msg_eth_tx.go:GetSenderAddrFromRawTxBytes", "07910cb81f8fd2d5");
+  ("x/tokens/types/msg_eth_tx.go:MsgEthereumTx.AsMessage", "c021aa249bf7d52c");
+  ("x/tokens/types/msg_eth_tx.go:MsgEthereumTx.AsTransaction", "e657fd0967658fa8");
+  ("x/tokens/types/msg_eth_tx.go:MsgEthereumTx.FromEthereumTx", "ef3c699d6f5e41ea");
+  ("x/tokens/types/msg_eth_tx.go:MsgEthereumTx.GetEthSender", "2d11010d58180a87");
+  ("x/tokens/types/msg_eth_tx.go:MsgEthereumTx.GetMsgs", "a1380a8d39ecced7");
+  ("x/tokens/types/msg_eth_tx.go:MsgEthereumTx.GetSignBytes", "113be67d37fc0ff9");
+  ("x/tokens/types/msg_eth_tx.go:MsgEthereumTx.GetSigners", "59561f83d6a04779");
+  ("x/tokens/types/msg_eth_tx.go:MsgEthereumTx.Route", "e47c40ed412f6e97");
+  ("x/tokens/types/msg_eth_tx.go:MsgEthereumTx.Type", "53e088d7b4cce603");
+  ("x/tokens/types/msg_eth_tx.go:MsgEthereumTx.ValidateBasic", "aa9c16981c35ccd0");
+  ("x/tokens/types/msg_eth_tx.go:validateTx", "0ec9dee9a5cff032");
+  ("types/Msg.go:MsgType", "52e577bb74833531")]%string.
+(* ---- every call site in non-test code of app/, x/, types/ that writes an account's key, sequence, number
+   or record.  Only SetPubKeyDecorator does (plus a test helper compiled into package app); the SDK's own
+   IncrementSequence / bank account creation are outside /repo.  A new writer (e.g. address rotation starting to
+   move keys or sequences) breaks this obligation. *)
+Definition c02_pinned_writers : list string := [
+  "app/ante/sigverify.go:SetPubKeyDecorator.AnteHandle:SetAccount";
+  "app/ante/sigverify.go:SetPubKeyDecorator.AnteHandle:SetPubKey";
+  "app/test_helpers.go:saveAccount:NewAccountWithAddress";
+  "app/test_helpers.go:saveAccount:SetAccount"]%string.
+
+Fixpoint strs_eqb (l m : list string) : bool :=
+  match l, m with [], [] => true | x :: l', y :: m' => String.eqb x y && strs_eqb l' m' | _, _ => false end.
+Fixpoint pairs_eqb (l m : list (string * string)) : bool :=
+  match l, m with
+  | [], [] => true
+  | (a, b) :: l', (c, d) :: m' => String.eqb a c && String.eqb b d && pairs_eqb l' m'
+  | _, _ => false end.
+Definition audited_code_pinned (fps : list (string * string)) (writers : list string) : bool :=
+  pairs_eqb fps c02_pinned_fingerprints && strs_eqb writers c02_pinned_writers.
